@@ -9,7 +9,7 @@ Full == {97, 32, 50, 56, 57} \cup Breaks          \* 'a', space, '2', '8', '9' a
 Small == {97, 32, 50, 56, 10, 13, 8232}
 Bytes == {97, 195, 169, 10, 13}                    \* 'a', the two bytes of U+00E9, \n, \r
 (* contents are built from units so that the UTF-8 pair stays together *)
-Units == {<<97>>, <<195, 169>>, <<10>>, <<13, 10>>, <<98>>, <<239, 187, 191>>, <<240, 159, 152, 128>>}   \* incl. U+FEFF (3 bytes) and a 4-byte character
+Units == {<<97>>, <<195, 169>>, <<10>>, <<13, 10>>, <<13>>, <<239, 187, 191>>, <<240, 159, 152, 128>>}   \* incl. U+FEFF (3 bytes) and a 4-byte character
 RECURSIVE Cat(_)
 Cat(ss) == IF ss = <<>> THEN <<>> ELSE Head(ss) \o Cat(Tail(ss))
 Contents == {Cat(u) : u \in SeqsOver(Units, ContentLen)}
@@ -24,5 +24,7 @@ Laws == IF kind = "splitlines"
         ELSE /\ RevMachine(t, bs) = (IF t = <<>> THEN <<>> ELSE RevRef(t))                   \* block size independence
              /\ (t # <<>> => \A l \in {RevRef(t)[i] : i \in 1..Len(RevRef(t))} : 10 \notin {l[j] : j \in 1..Len(l)})
 Out == IF kind = "splitlines" THEN IterSplitlines(t) ELSE RevRef(t)
-Emit == PrintT(<<"T", ToJson([kind |-> kind, t |-> t, bs |-> bs, out |-> Out])>>)
+(* a reader standing at offset k (preseek = FALSE) yields the lines of the first k bytes *)
+Pre == IF kind = "revlines" /\ bs \in {2, 5} /\ Len(t) > 1 THEN [k \in 1..(Len(t) - 1) |-> <<k, RevRef(SubSeq(t, 1, k))>>] ELSE <<>>
+Emit == PrintT(<<"T", ToJson([kind |-> kind, t |-> t, bs |-> bs, out |-> Out, pre |-> Pre])>>)
 =============================================================================
